@@ -50,6 +50,12 @@ variable (k : Kind) (r : Str → Bool)
 /-- `mssql._quote_in_literal`: `str(value).replace("'", "''")` -/
 def quoteInLiteral (s : Str) : Str := escapeClose '\'' s
 
+/-- SQLAlchemy's `preparer.format_table`: the schema is quoted as ONE name (no splitting on dots) -/
+def formatTableSA (name : Name) (schema : Option Name) : Str :=
+  match schemaGiven schema with
+  | some s => quoteName k r s ++ '.' :: quoteName k r name
+  | none => quoteName k r name
+
 /-- `base.alter_table` -/
 def alterTable (g : Tgt) : Str := "ALTER TABLE ".toList ++ formatTableName k r g.t g.schema
 
@@ -174,10 +180,7 @@ def render : Construct → Option Str
             formatColumnName k r new ++ ' ' :: mysqlColspec cs)
     | _ => none
   | .mysqlDropConstraint g cname kind =>
-    -- `preparer.format_table`: the schema is quoted as ONE name (no splitting on dots)
-    let tbl := (match schemaGiven g.schema with
-                | some s => quoteName k r s ++ '.' :: quoteName k r g.t
-                | none => quoteName k r g.t)
+    let tbl := formatTableSA k r g.t g.schema
     match k, kind with
     | .mysql, .check => some ("ALTER TABLE ".toList ++ tbl ++ " DROP CHECK ".toList ++ quoteName k r cname)
     | .mariadb, .check => some ("ALTER TABLE ".toList ++ tbl ++ " DROP CONSTRAINT ".toList ++ quoteName k r cname)
